@@ -75,8 +75,10 @@ def generate(rng, tier):
     m = Model()
     base = "c"
     feats = set(rng.subset(["modrs", "path", "inline", "cfg_if", "cfg_match", "cfg_attr_path", "decoys", "skipmod",
-                            "innerskip", "ignore", "generated", "twice", "stemdir"], 45))
+                            "innerskip", "ignore", "generated", "twice", "stemdir", "adversarial"], 45))
     lane = rng.choice(["normal"] * 7 + ["skip_children", "stdin", "fault"])
+    if lane == "fault":
+        feats.discard("adversarial")  # a decoy at the fallback location would make a missing module resolvable
     root_name = rng.choice(["main.rs", "lib.rs", "root.rs", "src/main.rs", "src/lib.rs"])
     root = os.path.join(base, root_name)
     names = list(NAMES)
@@ -84,6 +86,7 @@ def generate(rng, tier):
     ignore_pats = []
     generated_cfg = "generated" in feats and rng.chance(70)
     tags = {}
+    cur_kind = [None]
     decls_for_fault = []  # (declaring file, name, target) plain declarations usable by the fault lane
     leafs = []
 
@@ -96,8 +99,21 @@ def generate(rng, tier):
             return os.path.join(childdir, name, "mod.rs"), os.path.join(childdir, name)
         return os.path.join(childdir, name + ".rs"), os.path.join(childdir, name)
 
+    placed = []  # (declaring file, its kind, child name, child file) for children found by the default rules
+
+    def kind_of(rel, is_root):
+        if is_root:
+            return "root"
+        b = os.path.basename(rel)
+        if b == "mod.rs":
+            return "modrs"
+        if b.startswith(("p_", "alt_")):
+            return "path"
+        return "flat"
+
     def gen_file(rel, childdir, depth, status, is_root=False):
         """status: inherited status for this file before its own markers ("E" or "D")"""
+        cur_kind[0] = kind_of(rel, is_root)
         header = ""
         own = status
         descend_status = status
@@ -181,6 +197,7 @@ def generate(rng, tier):
             gen_file(target, cdir, depth + 1, st)
             return "std::cfg_match! {\n    unix => {\n        mod %s;\n    }\n    _ => {\n        fn  nothing2( ){ }\n    }\n}\n" % name
         target, cdir = place(childdir, name)
+        placed.append((decl_file, kind_of(decl_file, decl_file == root), name, target))
         gen_file(target, cdir, depth + 1, st)
         if st == "E":
             decls_for_fault.append((decl_file, name, target))
@@ -257,6 +274,23 @@ def generate(rng, tier):
         cfg.append("format_generated_files = false")
     if cfg:
         m.files[os.path.join(base, "rustfmt.toml")] = "\n".join(cfg) + "\n"
+    # adversarial decoys: a same-named file where a *wrong* resolution rule would look
+    if "adversarial" in feats:
+        for df, kind, name, target in placed:
+            ddir = os.path.dirname(df)
+            if kind in ("modrs", "path"):
+                stem = "mod" if kind == "modrs" else os.path.splitext(os.path.basename(df))[0]
+                wrong = os.path.join(ddir, stem, name + ".rs")
+            elif kind == "flat":
+                wrong = os.path.join(ddir, name + ".rs")
+            else:
+                continue
+            if os.path.normpath(wrong) in {os.path.normpath(p) for p in m.files} or not rng.chance(60):
+                continue
+            m.files[wrong] = gen_rust.tiny_unformatted("adversarial_decoy")
+            m.status[wrong] = "X"
+            m.why[wrong] = "declared by no module (decoy at the location a wrong resolution rule would pick)"
+            m.feats.add("adversarial-decoy")
     # decoys
     decoys = []
     if "decoys" in feats:
@@ -291,7 +325,7 @@ def generate(rng, tier):
     }
 
 
-RUSTC_OK_FEATS = {"modrs", "path", "inline", "decoys", "skipmod", "innerskip", "ignore", "generated-in-limit",
+RUSTC_OK_FEATS = {"modrs", "path", "inline", "decoys", "adversarial-decoy", "skipmod", "innerskip", "ignore", "generated-in-limit",
                   "generated-after-limit", "twice-same"}
 
 
